@@ -156,6 +156,35 @@ def adversarial_c04(sd, n):
     return cases
 
 
+def adversarial_lp(case):
+    """constraints without any variable ('1 <= 2', or rows whose coefficients cancelled): legal inputs;
+    only the exception class is judged here"""
+    S, ctx = case["S"], case["ctx"]
+    evs = [lpev.ev_simplify(S, ctx, "list"), lpev.ev_simplify(S, [], "list", with_ctx=False), lpev.ev_refines(S, ctx or S), lpev.ev_empty(S)]
+    if ctx:
+        evs.append(lpev.ev_simplify(S, ctx, "contract"))
+    return {"id": case["id"], "ev": evs}
+
+
+def adversarial_lp_cases(sd, n):
+    out = []
+    for i in range(n):
+        rng = family.rng_for(sd, "C14lp", i)
+        free = [({}, rng.choice([-1, 0, 1, 2])) for _ in range(rng.randint(1, 2))]
+        withv = gen.rlist_raw(rng, ["x", "y"], 0, 2)
+        shape = i % 4
+        if shape == 0:
+            S, ctx = free, []
+        elif shape == 1:
+            S, ctx = free, [({}, rng.choice([0, 1]))]
+        elif shape == 2:
+            S, ctx = free + withv, [({}, 1)]
+        else:
+            S, ctx = withv or free, free
+        out.append({"id": 200000 + i, "S": S, "ctx": ctx})
+    return out
+
+
 def main(tier, replay=None):
     rep = Report(PROP, tier)
     rd = run_dir(PROP)
@@ -179,10 +208,13 @@ def main(tier, replay=None):
     absorb("C04", c04.main(tier, rep=rep, prop=PROP, cases=c04.gen_cases("quick")[: 90 if q else 260] + adversarial_c04(sd, 60 if q else 600)))
     for mod, rule_groups, n in ((c01, None, 60), (c02, None, 60), (c08, None, 40), (c15, None, 40), (c16, None, 30)):
         cases = mod.gen_cases("quick")[: n if q else 4 * n]
+        if mod is c16:
+            cases = [c for c in mod.gen_cases("quick") if (c["id"] - 1) % 10 == 9][: 30 if q else 120] + cases[:10]
         absorb(mod.PROP, opsprop.run(PROP, tier, cases, mod.run_case, "", rep=rep))
     for mod, n in ((c03, 200), (c07, 120), (c11, 150), (c12, 60)):
         cases = mod.gen_cases("quick")[: n if q else 4 * n]
         absorb(mod.PROP, lpev.run(PROP, tier, cases, mod.run_case, "", owner=lambda ev: "none", rep=rep))
+    absorb("var-free", lpev.run(PROP, tier, adversarial_lp_cases(sd, 40 if q else 400), adversarial_lp, "", owner=lambda ev: "none", rep=rep))
     # (b) exhaustive fault enumeration generated by TLC
     res = run_tlc("DictFaults", "DictFaults.cfg", rd, workers=1, timeout=600)
     require_clean(res, "DictFaults")
